@@ -159,6 +159,10 @@ fn main() {
             let tier = if args.get(4).map(String::as_str) == Some("thorough") { Tier::Thorough } else { Tier::Quick };
             runner::run_one(&all_checks(), &args[2], &args[3], tier, args.get(5).and_then(|s| s.parse().ok()).unwrap_or(0))
         }
+        Some("abort-replay") => {
+            let tier = if args.get(5).map(String::as_str) == Some("thorough") { Tier::Thorough } else { Tier::Quick };
+            runner::write_abort_replay(&all_checks(), &args[2], args[3].parse().unwrap_or(0), args[4].parse().unwrap_or(0), tier, args.get(6).map_or("unknown status", String::as_str))
+        }
         Some("replay") => runner::replay_file(args.get(2).map_or("", String::as_str), &all_checks()),
         Some("gen") => gentool::run(&args[2..]),
         Some("rt") => gentool::roundtrip(&args[2..]),
